@@ -17,6 +17,7 @@ PROPS = ['C%02d' % i for i in range(1, 18)]
 
 
 def run_property(prop, tier='quick', root=None, overlay=None, write=True, quiet=False, model=None):
+    root = root
     mod = importlib.import_module('pmstatic.props.' + prop.lower())
     rep = Report(prop, tier)
     m = model or Model(root=root, overlay=overlay)
@@ -27,7 +28,31 @@ def run_property(prop, tier='quick', root=None, overlay=None, write=True, quiet=
     mod.run(m, rep)
     if tier == 'thorough' and hasattr(mod, 'thorough'):
         mod.thorough(m, rep)
+    rep.check_floors()
+    if tier == 'thorough' and overlay is None and not os.environ.get('PMSTATIC_NO_BATTERY'):
+        sensitivity(prop, rep, root)
     return rep
+
+
+def sensitivity(prop, rep, root):
+    """Thorough tier: the property's battery of variants (in-memory overlays) must be detected / stay silent."""
+    from . import selftest
+    res = selftest.run(prop, root)
+    lost = []
+    for (kind, p, name, status, detail, dt) in res:
+        rule = prop + '.SENS'
+        where = 'pmstatic/battery.py'
+        if status == 'skipped':
+            rep.note('battery variant %r no longer applies to this tree' % name)
+            continue
+        good = status in ('ok', 'other-rule') or (kind == 'fire' and status == 'analysis-error')
+        if good:
+            rep.ok(rule, where, '%s variant: %s' % ('must-fire' if kind == 'fire' else 'must-stay-silent', name), detail[:160], key='%s|%s|%s' % (rule, kind, name), trivial=True)
+        else:
+            lost.append('%s %r: %s %s' % (kind, name, status, detail[:120]))
+    rep.rule(prop + '.SENS', 'every must-fire variant of the battery is reported, every must-stay-silent variant is not')
+    if lost:
+        raise AnalysisError('the checker lost sensitivity/specificity on %d battery variants: %s' % (len(lost), '; '.join(lost[:3])))
 
 
 def main(argv=None):
